@@ -1,7 +1,12 @@
-(* C12 - The script listing and position marker show exactly what executes next. Statements only; proofs in ListingProofs.v. *)
+(* C12 - The script listing and position marker show exactly what executes next. Statements only; proofs in ListingProofs.v.
+   Model: BV.Cli (script_lines as built by main(): listing_sections / listing / session_listing, fn_print's marker: marked_line),
+   BV.Session (curr_op_seq bookkeeping inside StepScript(InterpreterEnv&) / RewindScript).
+   Proved for sessions over ONE script (btcdeb <script> [stack...]); sessions with scriptPubKey / P2SH / taproot-commitment sections are
+   decided by the pty correspondence only (C12_marker_multi_section is not proved). *)
 From BV Require Import Base Script Interp Session Value Cli ListingProofs.
 Local Open Scope Z_scope.
 
+(* every operation line carries its own index as number; headers occupy an index *)
 Theorem C12_line_numbers_are_positions : forall texts i k b t, nth_error texts k = Some (b, t) ->
   nth_error (number_from i texts) k = Some (if b then numbered (i + Z.of_nat k) t else t).
 Proof. exact number_from_nth. Qed.
@@ -9,5 +14,34 @@ Proof. exact number_from_nth. Qed.
 Theorem C12_nothing_marked_past_the_end : forall lines seq, Z.of_nat (length lines) <= seq -> marked_line lines seq = None.
 Proof. exact marked_none_past_end. Qed.
 
+(* the listing is the exact decoding of the script, in execution order *)
+Theorem C12_listing_is_the_decoding : forall c script stack ed,
+  i_p2sh (setup_env c script stack [] ed None) = false ->
+  session_listing c (setup_env c script stack [] ed None) = number_from 0 (map (fun op => (true, op_line op)) (decode_ops script)).
+Proof. exact session_listing_plain. Qed.
+
+(* in EVERY state reached by successful steps (any number, any opcodes, any flags, any script version) the position counter counts the
+   operations before the program counter ... *)
+Theorem C12_position_counts_executed_operations : forall low_s tap_tweak_ok sha256 c script stack ed v,
+  i_p2sh (setup_env c script stack [] ed None) = false ->
+  reach low_s tap_tweak_ok sha256 c (setup_env c script stack [] ed None) v ->
+  single v /\ marker_inv v /\ e_script (i_e v) = script.
+Proof. exact marker_inv_reachable. Qed.
+
+(* ... hence the marked line is the numbered rendering of the operation the next step fetches ... *)
+Theorem C12_marker_designates_the_next_operation : forall v op pc',
+  marker_inv v -> get_op (i_pc v) = (Some op, pc') ->
+  marked_line (plain_listing (e_script (i_e v))) (i_seq v) = Some (numbered (i_seq v) (op_line op)).
+Proof. exact (marker_designates_next_op (fun _ => true) (fun _ _ _ _ => true) (fun b => b)). Qed.
+
+(* ... and after the last operation nothing is marked as pending *)
+Theorem C12_nothing_pending_after_the_last_operation : forall v,
+  marker_inv v -> i_pc v = [] -> marked_line (plain_listing (e_script (i_e v))) (i_seq v) = None.
+Proof. exact marker_none_at_end. Qed.
+
 Print Assumptions C12_line_numbers_are_positions.
 Print Assumptions C12_nothing_marked_past_the_end.
+Print Assumptions C12_listing_is_the_decoding.
+Print Assumptions C12_position_counts_executed_operations.
+Print Assumptions C12_marker_designates_the_next_operation.
+Print Assumptions C12_nothing_pending_after_the_last_operation.
